@@ -51,11 +51,13 @@ origin! {
     pub enum OEnum { FirstOne, SecondOne, Third }
 
     pub struct OBox { pub b: Box<i32>, pub n: std::num::NonZeroU16 }
+
+    pub struct OSigned { pub d: std::num::NonZeroI16, pub m: Option<std::num::NonZeroI32>, pub s: i8 }
 }
 
 /// (name, schema) of every origin type; only with feature "schema".
 #[cfg(feature = "schema")]
 pub fn schemas() -> Vec<(&'static str, schemars::schema::RootSchema)> {
     macro_rules! all { ($($t:ident),*) => { vec![$( (stringify!($t), schemars::schema_for!($t)) ),*] }; }
-    all!(OPoint, OOpt, ORenamed, ODefault, ODeny, OTupleStruct, ONewtype, OEnum, OBox)
+    all!(OPoint, OOpt, ORenamed, ODefault, ODeny, OTupleStruct, ONewtype, OEnum, OBox, OSigned)
 }
